@@ -4,7 +4,7 @@ ID=$1
 WT=/tmp/seedwt/$ID
 HEAD=$(git -C /repo rev-parse HEAD)
 git -C $WT checkout -q -- . && git -C $WT clean -fdq && git -C $WT checkout -q --detach $HEAD || { echo "$ID worktree-problem"; exit 1; }
-for v in a b; do
+for v in ${VARIANTS:-a b}; do
   D=/tmp/seed/$ID/$v
   [ -f $D/patch.diff ] || { echo "$ID/$v no-patch"; continue; }
   git -C $WT apply --check $D/patch.diff 2>/dev/null || { echo "$ID/$v patch-does-not-apply-to-HEAD"; continue; }
